@@ -5,7 +5,8 @@ usage: python -m harness.drivers.measure_run <out.ndjson> <tier> <seed>
                 LevyModel.truncate_levy_measure / TruncatedLevyMeasure; every query goes through the real wrapper(s) and
                 the real dispatch of the base class; recorded as reduced fractions.  Orders n >= 3 reach the quadrature
                 fall-back of the base class: recorded quantised (thin).
- thin traces  : HEM, Merton, variance gamma, CGMY (y < 0, y = 0, 0 < y < 1, y = 1, 1 < y < 2) at seeded parameters:
+ thin traces  : HEM, Merton, variance gamma, CGMY (y < 0, y = 0, 0 < y < 1, y = 1, 1 < y < 2) at seeded parameters (some
+                reached through field-by-field updates and initialisation(), as the calibration does):
                 closed forms on a lattice of end points (with -inf, 0, +inf) through every route (integrate,
                 integrate_against_x, _xx, _xn), quantised; next to them the quadrature of x^n times the model's own
                 density over the same interval.  TLC judges: closed form = quadrature, additivity over adjacent
@@ -165,10 +166,32 @@ def real_models(rng, quick):
     u = rng.uniform
     out = []
     reps = 1 if quick else 4
+
+    def via_updates(cls, names, start, final):
+        """the parameters reach their final values the way the calibration does it: a copy of other parameters is
+        assigned field by field and re-initialised before the model is built"""
+        import copy
+        p = copy.deepcopy(cls(*start))
+        order = list(range(len(names)))
+        rng.shuffle(order)
+        for k in order:
+            setattr(p, names[k], final[k])
+            if rng.random() < 0.3:
+                p.initialisation()
+        p.initialisation()
+        return p
+
     for _ in range(reps):
         out.append(("hem", HEMModel(HEMParameters(u(0.05, 0.4), u(0.2, 0.8), u(3, 30), u(3, 30), u(0.5, 8))), 0, 0))
         out.append(("merton", MertonModel(MertonParameters(u(0.05, 0.4), u(0.01, 0.3), u(0.08, 0.5), u(0.5, 8))), 0, 0))
         out.append(("vg", VarianceGammaModel(VGParameters(u(0.1, 0.4), u(0.1, 0.6), u(-0.3, 0.2))), 1, 0))
+        out.append(("hem", HEMModel(via_updates(HEMParameters, ["sigma", "p", "eta1", "eta2", "intensity"], (0.2, 0.4, 8.0, 5.0, 3.0),
+                                                (u(0.05, 0.4), u(0.2, 0.8), u(3, 30), u(3, 30), u(0.5, 8)))), 0, 0))
+        out.append(("vg", VarianceGammaModel(via_updates(VGParameters, ["sigma", "nu", "theta"], (0.12, 0.2, -0.14),
+                                                         (u(0.1, 0.4), u(0.1, 0.6), u(-0.3, 0.2)))), 1, 0))
+        y_up = u(0.1, 0.9)
+        out.append(("cgmy_01", CGMYModel(via_updates(CGMYParameters, ["c", "g", "m", "y"], (0.5, 4.0, 6.0, 1.4),
+                                                     (u(0.05, 2.0), u(1.0, 12.0), u(1.0, 12.0), y_up))), 1, 0))
         for tag, y in (("cgmy_neg", u(-1.6, -0.2)), ("cgmy_0", 0.0), ("cgmy_01", u(0.1, 0.9)), ("cgmy_1", 1.0),
                        ("cgmy_12", u(1.1, 1.8))):
             m = CGMYModel(CGMYParameters(u(0.05, 2.0), u(1.0, 12.0), u(1.0, 12.0), y))
